@@ -41,7 +41,12 @@ func mw(name string) rux.HandlerFunc {
 	}
 }
 
+// paramsText renders a Params map; a nil map and an empty map are told apart (a handler that marshals c.Params
+// sees null versus {}), so the cache may not turn one into the other.
 func paramsText(ps rux.Params) string {
+	if ps == nil {
+		return "<nil>"
+	}
 	var ks []string
 	for k := range ps {
 		ks = append(ks, k)
